@@ -8,6 +8,8 @@ Record C05_case := {
   c5_before : rlive;                   (* live tables before the revert *)
   c5_tab : nat; c5_key : Z; c5_tx : Z; (* target version: class (0 Article, 1 Tag), key, transaction id *)
   c5_tags : bool; c5_labels : bool; c5_article : bool;   (* named relationships *)
+  c5_deep : bool;                      (* a dotted path below one of them is named as well (tags.article,
+                                          labels.articles, article.tags): other entities may be reverted too *)
   c5_after : rlive;                    (* live tables after revert + commit *)
   c5_exc : bool }.
 
@@ -23,6 +25,7 @@ Definition target (c : C05_case) : option vrow :=
 
 Definition C05_corr (c : C05_case) : bool :=
   negb (c5_exc c) && Core_corr (c5_main c) &&
+  if c5_deep c then true else     (* Model/Revert.v covers one level; deeper paths are judged by C05_prop only *)
   match target c with
   | None => false
   | Some v =>
@@ -69,8 +72,9 @@ Definition C05_prop (c : C05_case) : bool :=
           (if c5_labels c then
              same_keys (map snd (filter (fun p => fst p =? k) (rl_lnk after)))
                        (keys_of_refs (spec_m2m (c5_av c) (c5_lab c) k (c5_tx c))) &&
-             set_eqb lnk_eq (filter (fun p => negb (fst p =? k)) (rl_lnk after))
-                            (filter (fun p => negb (fst p =? k)) (rl_lnk before))
+             (c5_deep c ||
+              set_eqb lnk_eq (filter (fun p => negb (fst p =? k)) (rl_lnk after))
+                             (filter (fun p => negb (fst p =? k)) (rl_lnk before)))
            else set_eqb lnk_eq (rl_lnk after) (rl_lnk before))
       else
         if vop v =? OP_DEL then
